@@ -1,6 +1,6 @@
 SPECIFICATION Spec
 CONSTANT NRegs = 4
 CONSTANT Depth = 7
-CONSTANT NValues = 36
+CONSTANT NValues = 41
 INVARIANT Emit
 CHECK_DEADLOCK FALSE
